@@ -817,6 +817,13 @@ def bytes_strategy(max_size, big=None):
                                 st.binary(max_size=6)),
                       min_size=1, max_size=4).map(b"".join)
     opts = [small, small, tricky, st.binary(max_size=max_size)]
+    # lengths at which the decimal / hexadecimal / 32-bit length prefixes
+    # change their number of digits or bytes
+    edges = [n for n in (9, 10, 11, 15, 16, 17, 99, 100, 101, 255, 256, 257,
+                         999, 1000, 4095, 4096) if n <= max(max_size, 300)]
+    opts.append(st.tuples(st.sampled_from(edges), st.binary(
+        min_size=1, max_size=3)).map(
+            lambda t: (t[1] * (t[0] // len(t[1]) + 1))[:t[0]]))
     if big:
         lo, hi = big
         opts.append(st.tuples(st.integers(lo, hi), st.binary(
